@@ -24,7 +24,7 @@ use crate::debugger::debugee::tracee::{Tracee, TraceeCtl};
 use crate::debugger::debugee::tracer::{StopReason, TraceContext, Tracer};
 use crate::debugger::error::Error;
 use crate::debugger::error::Error::{
-    FunctionNotFound, FunctionRangeNotFound, MappingOffsetNotFound, TraceeNotFound,
+    FrameNotFound, FunctionNotFound, FunctionRangeNotFound, MappingOffsetNotFound, TraceeNotFound,
 };
 use crate::debugger::process::{Child, Installed};
 use crate::debugger::register::DwarfRegisterMap;
@@ -374,15 +374,13 @@ impl Debugee {
         let base_addr = func.frame_base_addr(ecx, self)?;
         let cfa = dwarf.get_cfa(self, ecx)?;
         let backtrace = self.unwind(ecx.pid_on_focus())?;
-        let (bt_frame_num, frame) = backtrace
-            .iter()
-            .enumerate()
-            .find(|(_, frame)| frame.ip == ecx.location().pc)
-            .expect("frame must exists");
-        let return_addr = backtrace.get(bt_frame_num + 1).map(|f| f.ip);
+        let frame = backtrace
+            .get(ecx.frame_num() as usize)
+            .ok_or(FrameNotFound(ecx.frame_num()))?;
+        let return_addr = backtrace.get(ecx.frame_num() as usize + 1).map(|f| f.ip);
         Ok(FrameInfo {
             frame: frame.clone(),
-            num: bt_frame_num as u32,
+            num: ecx.frame_num(),
             cfa,
             base_addr,
             return_addr,
